@@ -408,6 +408,29 @@ def chain(ctx: Ctx, rep: Report) -> None:
         'an internal worker error stops the worker and is reported upward',
         'an internal worker error is swallowed', key='worker-loop',
     )
+    # every override of handle_disconnect still reaches the base version,
+    # which is where "one of my employees is gone" becomes a shutdown
+    for qual in (R.DET, R.ATT, R.MGR):
+        c = ctx.cls(qual)
+        m = c.methods.get('handle_disconnect')
+        if m is None:
+            continue
+        gm = ctx.cfg(m)
+        rep.seen(m.qualname)
+        rep.count()
+        rep.check(
+            gm.must(q.either(
+                q.has_call('super().handle_disconnect', ['conn']),
+                q.has_call('self.handle_shutdown', [])),
+                ends={gm.exit}), M,
+            f'{c.name}.handle_disconnect:base', m.path, m.lineno,
+            'the override reaches ServerBase.handle_disconnect on every '
+            'path',
+            f'{c.name}.handle_disconnect can return without calling '
+            'super().handle_disconnect(conn): the loss of a worker / '
+            'manager connection is then never turned into a shutdown and '
+            'the waiting clients are not told', key='override-base',
+        )
     # client
     for meth in ('_send_recv', '_send'):
         f, g = fn(R.COMP, meth)
